@@ -44,6 +44,9 @@ namespace {
     if (c == "one") return T(1);
     if (c == "mone") return static_cast<T>(-1);
     if (c == "two") return T(2);
+    if (c == "eight") return T(8);      // shift counts: valid for every left operand (the shift happens in the promoted type)
+    if (c == "sixt") return T(16);
+    if (c == "tone") return T(31);
     if (c == "min") return L::lowest();
     if (c == "max") return L::max();
     if constexpr (std::is_floating_point_v<T>) {
